@@ -25,7 +25,7 @@ func init() {
 		g.pf("def nesting : List (String × String) :=\n  %s\n\n", leanPairList(nest))
 		pf := funcDecls(p)
 		var em [][2]string
-		for _, n := range []string{"Ctx.Decls", "sortedFiles", "depTracker.addName", "depTracker.addDep", "filterImports"} {
+		for _, n := range []string{"Ctx.Decls", "declUnits", "sortedFiles", "depTracker.addName", "depTracker.addDep", "filterImports"} {
 			em = append(em, [2]string{n, canonFunc(p, pf[n])})
 		}
 		g.pf("def emission : List (String × String) :=\n  %s\n\n", leanPairList(em))
